@@ -141,7 +141,7 @@ def main():
             na.append({"property_id": pid, "reason": NOT_APPLICABLE.get(pid, "check not built yet (work in progress; planned in DESIGN.md)")})
     m = {
         "version": 1,
-        "setup_cmd": "cd /verif/harness && CARGO_NET_OFFLINE=true cargo build --release --offline",
+        "setup_cmd": "cd /verif/harness && CARGO_NET_OFFLINE=true cargo build --profile quick --offline && CARGO_NET_OFFLINE=true cargo build --release --offline",
         "hooks": {
             "guard": "cargo feature `verif-hooks` of crate prio (off by default)",
             "enable": "harness/Cargo.toml depends on prio = { path = \"/repo\", features = [\"experimental\",\"test-util\",\"multithreaded\",\"verif-hooks\"] }; every ./check rebuilds from /repo's working tree",
